@@ -4,7 +4,7 @@ package main
 // coq/Props/C05.v).  For documents of the generator of c05.go the REAL decoder's value y, the real encoding b1 of y,
 // the real decoding y1 of b1 and the real encoding b2 of y1 go to Coq as one case; there
 //
-//     in the class of the theorems (wf_doc y, nesting <= 64):
+//     in the class of the theorems (wf_doc y, nesting <= 149):
 //         the model encodes y to b1 and decodes b1 to y1,  y1 = norm_doc y  (C05_fixpoint_of_decoded on the observed
 //         values),  the model encodes norm_doc y to b2,  and  b1 = b2  (C05_bytes_stable / C05_fixpoint_of_decoded_bytes
 //         on the observed values);
@@ -39,7 +39,7 @@ const c05FixHeader = "From AP.Model Require Import Prelude Vocab JsonCodec JsonN
 	"Definition same_bytes (o : option bytes) (b : bytes) : bool := match o with Some x => bytes_eqb x b | None => false end.\n" +
 	"Definition same_item (o : option (outcome item)) (y : item) : bool := match o with Some (Ok x) => item_eqb x y | _ => false end.\n" +
 	"Definition ok (c : item * bytes * item * bytes) : bool := let '(y, b1, y1, b2) := c in\n" +
-	"  implb (wf_doc y && Nat.leb (ddepth y) 64)\n" +
+	"  implb (wf_doc y && Nat.leb (ddepth y) 149)\n" +
 	"    (same_bytes (enc y) b1 && same_item (dec b1) y1 && item_eqb y1 (norm_doc y) && wf_doc y1 &&\n" +
 	"     same_bytes (enc (norm_doc y)) b2 && bytes_eqb b1 b2).\n"
 
